@@ -167,7 +167,7 @@ func checkC06(c *Ctx) {
 	if nf, fn := f.NF("nextToken"); fn != nil {
 		want := nextTokenNF
 		nf2 := strings.ReplaceAll(nf, "(Token).end", "Token.end")
-		r.Check(f.canon(nf2) == f.canon(want), "C06.a", "nextToken", "never-returns-SPACE", c.Pos(f.M.Fset, fn.Decl.Pos()), "the returned token is the variable of a loop that continues while it is a SPACE token", "nextToken's closed form changed; "+diffHint(nf2, want))
+		r.Check(f.canon(nf2) == f.canonSpec(want), "C06.a", "nextToken", "never-returns-SPACE", c.Pos(f.M.Fset, fn.Decl.Pos()), "the returned token is the variable of a loop that continues while it is a SPACE token", "nextToken's closed form changed; "+diffHint(nf2, want))
 	} else {
 		r.Undecided("C06.a", "nextToken", "definition", "fc", "anchor function not found")
 	}
